@@ -536,3 +536,134 @@ func lastField(info *types.Info, e ast.Expr) *types.Var {
 var _ = cfgx.SameExpr
 var _ = load.FuncName
 var _ = token.ADD
+
+// ---------------------------------------------------------------- RO1
+
+// RuleRO1: serialising is reading. The Marshal* / String methods of the repository, and the
+// same-package functions they reach by static calls, store into nothing that is reachable
+// from their receiver or parameters through an indirection (a pointer receiver's field, an
+// element of a slice or map, a field behind a pointer). A value receiver's own field is a
+// private copy and does not count. A serialiser that "normalises" the node it prints writes
+// shared state under a read-only API: two goroutines calling ToJson on one validated
+// catalog race, which C16 promises they do not.
+func RuleRO1(c *Ctx) {
+	sc := c.Run.Begin("RO1", "no serialiser (Marshal*/String method, or a same-package function it reaches statically) stores into state reachable from its receiver or parameters through an indirection", 5)
+	defer sc.End()
+	isSerialiser := func(name string) bool {
+		switch name {
+		case "MarshalJSON", "MarshalText", "String", "MarshalBinary":
+			return true
+		}
+		return false
+	}
+	n := 0
+	for _, pk := range c.P.Repo {
+		info := pk.TypesInfo
+		var roots []*types.Func
+		for _, file := range pk.Syntax {
+			if c.P.IsTestFile(file) {
+				continue
+			}
+			for _, d := range file.Decls {
+				fd, ok := d.(*ast.FuncDecl)
+				if !ok || fd.Recv == nil || fd.Body == nil || !isSerialiser(fd.Name.Name) {
+					continue
+				}
+				if f, ok := info.Defs[fd.Name].(*types.Func); ok {
+					roots = append(roots, f)
+				}
+			}
+		}
+		if len(roots) == 0 {
+			continue
+		}
+		for _, f := range reachStatic(c.P, pk, roots) {
+			fd := c.P.Decl(f)
+			if fd == nil || fd.Body == nil {
+				continue
+			}
+			// receiver and parameters
+			owned := map[types.Object]bool{}
+			for _, fl := range []*ast.FieldList{fd.Recv, fd.Type.Params} {
+				if fl == nil {
+					continue
+				}
+				for _, fld := range fl.List {
+					for _, nm := range fld.Names {
+						if o := info.ObjectOf(nm); o != nil {
+							owned[o] = true
+						}
+					}
+				}
+			}
+			// a store through lhs reaches shared state when the path from an owned root
+			// crosses an indirection
+			shared := func(lhs ast.Expr) (bool, string) {
+				indirect := false
+				e := ast.Unparen(lhs)
+				for {
+					switch x := e.(type) {
+					case *ast.SelectorExpr:
+						if t := info.TypeOf(x.X); t != nil {
+							if _, isPtr := t.Underlying().(*types.Pointer); isPtr {
+								indirect = true
+							}
+						}
+						e = ast.Unparen(x.X)
+						continue
+					case *ast.IndexExpr:
+						if t := info.TypeOf(x.X); t != nil {
+							switch t.Underlying().(type) {
+							case *types.Slice, *types.Map, *types.Pointer:
+								indirect = true
+							}
+						}
+						e = ast.Unparen(x.X)
+						continue
+					case *ast.StarExpr:
+						indirect = true
+						e = ast.Unparen(x.X)
+						continue
+					case *ast.Ident:
+						o := info.ObjectOf(x)
+						if owned[o] && indirect {
+							return true, x.Name
+						}
+					}
+					return false, ""
+				}
+			}
+			n++
+			bad := ""
+			ast.Inspect(fd.Body, func(nd ast.Node) bool {
+				var lhss []ast.Expr
+				switch s := nd.(type) {
+				case *ast.AssignStmt:
+					if s.Tok != token.DEFINE {
+						lhss = s.Lhs
+					}
+				case *ast.IncDecStmt:
+					lhss = []ast.Expr{s.X}
+				}
+				for _, l := range lhss {
+					if _, isId := ast.Unparen(l).(*ast.Ident); isId {
+						continue
+					}
+					if ok, root := shared(l); ok && bad == "" {
+						bad = fmt.Sprintf("%s at %s (through %s)", types.ExprString(l), c.P.Pos(l.Pos()), root)
+					}
+				}
+				return true
+			})
+			key := c.P.DeclName(fd)
+			if bad == "" {
+				sc.Holds(key, c.P.Pos(fd.Pos()), "stores into nothing reachable from its receiver or parameters")
+			} else {
+				sc.Violation(key, c.P.Pos(fd.Pos()), "a serialiser writes the value it serialises: "+bad+" - concurrent ToJson calls on one validated catalog (or a serialisation during a read) race on that field")
+			}
+		}
+	}
+	if n == 0 {
+		sc.Undecided("serialisers", "-", "no Marshal*/String method found")
+	}
+}
